@@ -673,6 +673,11 @@ func (fx *FuncCtx) specCall(env *specEnv, x *ast.CallExpr) sval {
 	case "fresh":
 		// the object was allocated during this call
 		a := arg(0)
+		if sv, isSlice := a.v.(SliceV); isSlice {
+			// a slice whose backing region was allocated during this call: regions handed in by the
+			// caller have non-negative identifiers, allocations negative ones
+			return sval{Lt(sv.Rid, IntLit(0)), nil}
+		}
 		t, ok := unwrapScalar(a.v)
 		if !ok {
 			fx.unsupportedf("spec: fresh() of non-reference")
